@@ -235,7 +235,10 @@ func (m *runtimeContextManager) ReleaseMem(memAmount uint64) {
 		if memAmount <= m.usedResources.Memory {
 			m.usedResources.Memory -= memAmount
 		} else {
-			panic("Too much mem released")
+			// Memory can be released in a context that did not require it
+			// (e.g. a coroutine created outside a memory-limited context and
+			// finishing inside it): reduce "if possible" (see quotas.md).
+			m.usedResources.Memory = 0
 		}
 	}
 }
